@@ -201,7 +201,7 @@ class World(EventDispatcher):
 
         while fringe:
             subtype = fringe.pop()
-            fringe += subtype.__subclasses__()
+            fringe += type.__subclasses__(subtype)
 
             if subtype in self._entities[entity]:
                 return True
@@ -254,7 +254,7 @@ class World(EventDispatcher):
             if subtype in visited:
                 continue
             visited.add(subtype)
-            fringe += subtype.__subclasses__()
+            fringe += type.__subclasses__(subtype)
 
             for entity in self._components.get(subtype, []):
                 yield entity, self._entities[entity][subtype]
@@ -278,7 +278,7 @@ class World(EventDispatcher):
             if subtype in self._entities.get(entity, {}):
                 return self._entities[entity][subtype]
 
-            fringe += subtype.__subclasses__()
+            fringe += type.__subclasses__(subtype)
 
         return default
 
@@ -392,7 +392,7 @@ class World(EventDispatcher):
                     self.remove_handler(removed)
                     return removed
 
-            fringe += subtype.__subclasses__()
+            fringe += type.__subclasses__(subtype)
 
         return removed
 
@@ -488,7 +488,7 @@ class World(EventDispatcher):
                 self.remove_handler(removed)
                 return removed
 
-            fringe += subtype.__subclasses__()
+            fringe += type.__subclasses__(subtype)
 
     def get_processor(self, processor_type: type[P]) -> Optional[P]:
         """Get a processor of the given type from the system.
@@ -503,7 +503,7 @@ class World(EventDispatcher):
             if subtype in self._processors:
                 return self._processors[subtype]
 
-            fringe += subtype.__subclasses__()
+            fringe += type.__subclasses__(subtype)
 
         return None
 
